@@ -9,6 +9,13 @@ import (
 	"verifharness/rig"
 )
 
+// SetupMismatch is returned by Play when the real cluster did not behave as the model during the set-up but the set-up
+// itself went through: the caller may go on (the property is judged on what the real code does) and report the difference
+// if nothing worse is found.
+type SetupMismatch struct{ What string }
+
+func (e *SetupMismatch) Error() string { return e.What }
+
 type planReply struct {
 	Steps []Step `json:"steps"`
 }
@@ -23,13 +30,14 @@ func Play(c *rig.Ctx, w *World, ops []Op) (*Step, error) {
 	for i := range planOps {
 		planOps[i].Order = nil
 	}
-	if err := c.Model("C03.run", map[string]interface{}{"ops": planOps}, &plan); err != nil {
+	if err := c.Model("C03.run", map[string]interface{}{"ops": planOps, "policy_scopes": PolicyScopes()}, &plan); err != nil {
 		return nil, fmt.Errorf("model error %v", err)
 	}
 	if len(plan.Steps) != len(ops) {
 		return nil, fmt.Errorf("model answered %d steps for %d ops", len(plan.Steps), len(ops))
 	}
 	var last *Step
+	var mismatch *SetupMismatch
 	for i := range ops {
 		op := &ops[i]
 		workers := -1
@@ -73,17 +81,27 @@ func Play(c *rig.Ctx, w *World, ops []Op) (*Step, error) {
 			want[Ident{N: e.N, Gen: e.Gen}] = e.Probes
 		}
 		if bad := w.Quiesce(want, workers); bad != "" {
-			return nil, fmt.Errorf("after op %d (%s): %s", i, op.Op, bad)
+			if mismatch == nil {
+				mismatch = &SetupMismatch{fmt.Sprintf("after op %d (%s): %s", i, op.Op, bad)}
+			}
+			// settle without the model: the workers are those of the enabled servers and nothing is pending; from now on
+			// the model's probe counts are not waited for any longer than a moment
+			w.Timeout = 300 * time.Millisecond
+			w.Quiesce(map[Ident]int{}, workers)
+			time.Sleep(2 * time.Millisecond)
 		}
 		w.DrainFired()
 		eps, lb, err := w.Snapshot()
 		if err != nil {
 			return nil, err
 		}
-		if a, b := CanonEps(plan.Steps[i].Eps), CanonEps(eps); a != b {
-			return nil, fmt.Errorf("after op %d (%s): endpoints: model [%s], code [%s]", i, op.Op, a, b)
+		if a, b := CanonEps(plan.Steps[i].Eps), CanonEps(eps); a != b && mismatch == nil {
+			mismatch = &SetupMismatch{fmt.Sprintf("after op %d (%s): endpoints: model [%s], code [%s]", i, op.Op, a, b)}
 		}
 		last = &Step{Eps: eps, Lb: lb}
+	}
+	if mismatch != nil {
+		return last, mismatch
 	}
 	return last, nil
 }
